@@ -1540,12 +1540,14 @@ func (pid *PID) Shutdown(ctx context.Context) error {
 	}
 
 	// we should never shutdown system actors unless the whole system is
-	// terminating. Endpoint-owned reliable-delivery controllers are the one
-	// exception: their reserved identity hides them from every public API, yet
+	// terminating. Relocation workers are short-lived system actors that stop
+	// themselves when their job is done and are stopped by their supervisor
+	// when they panic, so they are exempt. Endpoint-owned reliable-delivery
+	// controllers are the other exception: their reserved identity hides them from every public API, yet
 	// spawn rollback, endpoint subtree shutdown, and their own terminal
 	// self-stop must all be able to stop them while the system keeps running.
 	if actoryStem := pid.ActorSystem(); actoryStem != nil {
-		if !actoryStem.isStopping() && isSystemName(pid.Name()) && pid.reliableCompanion == nil {
+		if !actoryStem.isStopping() && isSystemName(pid.Name()) && pid.reliableCompanion == nil && !isRelocationWorkerName(pid.Name()) {
 			pid.logger.Warnf("attempt to shutdown system actor=%s", pid.Name())
 			return gerrors.ErrShutdownForbidden
 		}
